@@ -21,7 +21,11 @@ def judge(ctx, progs: list[dict], res: list[dict], tag: str, keyfn, what: str) -
         if o.get("hang"):
             ctx.violation(f"hang:{keyfn(p, 'hang', '')}", "assembly did not terminate", {"prog": p})
             continue
-        recs.append({"id": str(k), "prog": p, "obs": {"ok": o["ok"], "calls": o["calls"], "labels": o["labels"]}})
+        rec = {"id": str(k), "prog": p, "obs": {"ok": o["ok"], "calls": o["calls"], "labels": o["labels"]}}
+        if "_alt" in p:      # an alternative reading of the same source text (see TraceAsm!VerdictAlt)
+            rec["alt"] = p["_alt"]
+            rec["prog"] = {kk: vv for kk, vv in p.items() if kk != "_alt"}
+        recs.append(rec)
     rejects, st, gen = tlc.judge_traces("TraceAsm", recs, tag=tag, nshards=16, heap="2g")
     ctx.add_states(st, gen, what)
     ctx.traces += len(recs)
